@@ -427,14 +427,16 @@ def cli_corrupt(rec, rnd, tmp, k):
     env.pop('TALLY_CONFIG', None)
     case = {'kind': 'cli', 'which': which, 'cls': cls, 'rules': text, 'views': vtext, 'implicit_rules_file': implicit}
     rec.case()
-    for cmd in (['up', os.path.join(b, 'config'), '--format', 'summary'], ['diag', os.path.join(b, 'config')]):
+    # (scripts and cron jobs run `up -q`: quiet drops progress, not the report that a file of the budget cannot be loaded)
+    for cmd in (['up', os.path.join(b, 'config'), '--format', 'summary'], ['diag', os.path.join(b, 'config')],
+                [['up', os.path.join(b, 'config'), '-q', '--format', 'json'], ['up', os.path.join(b, 'config'), '-q'], ['up', os.path.join(b, 'config'), '--quiet', '--format', 'summary']][k % 3]):
         p = subprocess.run([core.PY, '-m', 'tally'] + cmd, cwd=b, env=env, capture_output=True, text=True, stdin=subprocess.DEVNULL, timeout=120)
         out = p.stdout + p.stderr
         rec.count('cli_corrupt_runs')
         told = bool(re.search(r'Line \d+', out)) or 'could not load' in out.lower() or 'error loading' in out.lower() or 'parse error' in out.lower() or \
             ('invalid' in out.lower() and not other_notice)
         if not told:
-            rec.violation('cli-corrupt-%s-silent:%s' % (which, cmd[0]), f'tally {cmd[0]} (exit {p.returncode}) on a budget whose {which} file has a {cls} corruption '
+            rec.violation('cli-corrupt-%s-silent:%s' % (which, cmd[0] + (' -q' if ('-q' in cmd or '--quiet' in cmd) else '')), f'tally {" ".join(cmd[:1] + cmd[2:])} (exit {p.returncode}) on a budget whose {which} file has a {cls} corruption '
                           f'gives no indication: {out[-300:]!r}', case)
     rec.interesting(['cli', which, cls])
     shutil.rmtree(b, ignore_errors=True)
